@@ -23,8 +23,9 @@ theorem offsets_append (xs ys : List (List α)) :
 
 /-- one batch: the invariant is kept and the number of spans left decreases -/
 theorem batchBody_step (sep delim : α) (spans : List Nat) (entries : List (List α)) (srcChunk valueCap : Nat)
-    (hb : ∀ p ∈ spans, p ≤ entries.length) (hsc : 1 ≤ srcChunk)
-    (hM : ∀ o ∈ concatSpec sep delim entries spans, o.length ≤ valueCap / 2)
+    (hb : ∀ p ∈ spans, p ≤ entries.length) (hsc : 1 ≤ srcChunk) (M : Nat)
+    (hM : ∀ o ∈ concatSpec sep delim entries spans, o.length ≤ M)
+    (hMV : M ≤ valueCap) (hV : valueCap / 2 - 1 + M ≤ valueCap)
     (st : S α) (hinv : BatchInv (concatSpec sep delim entries spans) st)
     (hg : batchGuard spans st = true) :
     ∃ st', batchBody .repaired sep delim spans (offsets entries) entries.flatten srcChunk valueCap st = .ok st' ∧
@@ -35,7 +36,7 @@ theorem batchBody_step (sep delim : α) (spans : List Nat) (entries : List (List
   have hlt : st.s < spans.length - 1 := by simpa [batchGuard] using hg
   let P := batchParams .repaired sep delim spans (offsets entries) entries.flatten srcChunk valueCap st
   have hc : Col P entries := ⟨rfl, rfl, hb⟩
-  obtain ⟨k, hk, hle, hker⟩ := kernel_spec P entries hc (valueCap / 2)
+  obtain ⟨k, hk, hle, hker⟩ := kernel_spec P entries hc M
     (by simpa [P, batchParams, houts] using hM) (Nat.le_refl _)
     (by simp only [P, batchParams]; omega) (by simp only [P, batchParams]; omega) st.s hlt
     (by simp only [P, batchParams, indexCap]; split <;> omega)
@@ -70,8 +71,9 @@ theorem batchBody_step (sep delim : α) (spans : List Nat) (entries : List (List
 
 /-- the batch loop terminates without error and stores the specification's offsets and bytes -/
 theorem runBatches_spec (sep delim : α) (spans : List Nat) (entries : List (List α)) (srcChunk valueCap : Nat)
-    (hb : ∀ p ∈ spans, p ≤ entries.length) (hsc : 1 ≤ srcChunk)
-    (hM : ∀ o ∈ concatSpec sep delim entries spans, o.length ≤ valueCap / 2) :
+    (hb : ∀ p ∈ spans, p ≤ entries.length) (hsc : 1 ≤ srcChunk) (M : Nat)
+    (hM : ∀ o ∈ concatSpec sep delim entries spans, o.length ≤ M)
+    (hMV : M ≤ valueCap) (hV : valueCap / 2 - 1 + M ≤ valueCap) :
     ∃ st, runBatches .repaired sep delim spans (offsets entries) entries.flatten srcChunk valueCap = .ok st ∧
       st.dest = ⟨storedIndices (concatSpec sep delim entries spans), (concatSpec sep delim entries spans).flatten⟩ := by
   have hlen := concatSpec_length sep delim entries spans
@@ -79,7 +81,7 @@ theorem runBatches_spec (sep delim : α) (spans : List Nat) (entries : List (Lis
     (batchBody .repaired sep delim spans (offsets entries) entries.flatten srcChunk valueCap)
     (BatchInv (concatSpec sep delim entries spans))
     (fun st => (concatSpec sep delim entries spans).length - st.s)
-    (fun st hinv hg => batchBody_step sep delim spans entries srcChunk valueCap hb hsc hM st hinv hg)
+    (fun st hinv hg => batchBody_step sep delim spans entries srcChunk valueCap hb hsc M hM hMV hV st hinv hg)
     spans.length {} ⟨by simp, by simp, by simp, by simp⟩ (by simp only []; omega)
   refine ⟨st, hrun, ?_⟩
   have hs : st.s = (concatSpec sep delim entries spans).length := by
